@@ -261,6 +261,12 @@ func cmdCheck(prop, tier string, rest []string) int {
 	obs = append(obs, lemmaObs...)
 	e.DischargeAll(obs, workers())
 
+	// thorough: every discharged obligation is re-submitted to the other solvers;
+	// a contradicting answer (sat) is a failure of the machinery's trust base
+	confirmed, contradicted := 0, []string{}
+	if tier == "thorough" {
+		confirmed, contradicted = e.crossCheck(obs)
+	}
 	// vacuity: the entry of every function (after its preconditions) must be reachable
 	var vacuous []string
 	for _, fc := range fctxs {
@@ -436,6 +442,8 @@ func cmdCheck(prop, tier string, rest []string) int {
 			"uncontracted_callees_havoc": unc,
 			"engine_warnings":            warnings,
 			"lemmas":                     len(lemmaObs),
+			"thorough_cross_check":       map[string]interface{}{"discharged_confirmed_by_second_solver": confirmed, "contradicted": contradicted},
+			"must_fail_corpus":           loadMutantResult(e.VerifDir, prop),
 			"replay":                     map[string]interface{}{"method": "on a failed obligation of one of these functions a bounded search over small inputs runs the contract (compiled to Go) against the real function via go test -overlay; a violating input removes the no-failing-input-found suffix", "functions": replayable},
 			"packages":                   dirs,
 		},
@@ -445,6 +453,10 @@ func cmdCheck(prop, tier string, rest []string) int {
 		return fail(err)
 	}
 	fmt.Printf("%s %s: %d obligations, %d discharged, %d failed, %d known findings, %d functions, %.1fs\n", prop, tier, len(obs), nDis, nFail, nKnown, len(funcs), time.Since(start).Seconds())
+	if len(contradicted) > 0 && exit == 0 {
+		fmt.Fprintf(os.Stderr, "govc: solvers disagree on %v\n", contradicted)
+		return 2
+	}
 	return exit
 }
 
@@ -531,4 +543,64 @@ func workers() int {
 		n = 2
 	}
 	return n
+}
+
+// crossCheck re-runs discharged obligations on the solvers that did not
+// discharge them.
+func (e *Engine) crossCheck(obs []*Obligation) (int, []string) {
+	type res struct {
+		name string
+		ok   bool
+		bad  bool
+	}
+	ch := make(chan res)
+	sem := make(chan struct{}, workers())
+	n := 0
+	for _, ob := range obs {
+		if ob.Status != "discharged" || ob.SMTPath == "" {
+			continue
+		}
+		n++
+		go func(ob *Obligation) {
+			sem <- struct{}{}
+			defer func() { <-sem }()
+			r := res{name: ob.Name}
+			for _, sp := range solvers {
+				if sp.name == ob.Solver {
+					continue
+				}
+				a := runSolverSimple(sp, ob.SMTPath, 20)
+				if a.answer == "unsat" {
+					r.ok = true
+				}
+				if a.answer == "sat" {
+					r.bad = true
+				}
+			}
+			ch <- r
+		}(ob)
+	}
+	confirmed := 0
+	var bad []string
+	for i := 0; i < n; i++ {
+		r := <-ch
+		if r.ok {
+			confirmed++
+		}
+		if r.bad {
+			bad = append(bad, r.name)
+		}
+	}
+	sort.Strings(bad)
+	return confirmed, bad
+}
+
+func loadMutantResult(verif, prop string) interface{} {
+	data, err := os.ReadFile(filepath.Join(verif, "selftest", "last_"+prop+".json"))
+	if err != nil {
+		return "not run in this tier (run by ./check <prop> thorough)"
+	}
+	var v interface{}
+	json.Unmarshal(data, &v)
+	return v
 }
